@@ -24,13 +24,14 @@
 /* VERIF-UNIT
 {
  "name": "undo_reopen_keys", "defines": ["NO_INLINE_FUNCS", "CFG_BS=1024", "CFG_TDB=1024"],
- "props": ["C12"], "level": "U", "tier": "wip", "harness": "h_reopen_keys",
+ "props": ["C12"], "level": "U", "tier": "thorough", "harness": "h_reopen_keys",
  "replace": ["check_filesystem", "undo_setup_tdb"], "loop_contracts": true,
  "unwind": 24, "unwind_reason": "only DFCC library loops over the assigns-clause targets (<= 12) are unwound; both loops of try_reopen_undo_file are closed by in-place loop contracts",
  "functions": ["lib/ext2fs/undo_io.c:try_reopen_undo_file"],
  "assumes": ["header of the existing undo file: block_size 1024, fs_block_size 1024 (literals: symbolic divisors do not terminate), num_keys <= 2^40, everything else arbitrary",
    "key blocks have arbitrary content (each read of the undo file delivers new arbitrary bytes); crc32c is a stub that may or may not match",
    "the ghost key is well formed as undo_write_tdb writes keys: fsblk*fs_block_size a multiple of block_size, size >= 1, fsblk <= 2^44",
+   "block_size 4096 (255 keys per block) was tried and does not finish in 600 s",
    "check_filesystem and undo_setup_tdb by contract; the key block (block_size bytes) and the bitmap that undo_setup_tdb allocates are put in place by the harness before the call",
    "the numbering origin is 0: data->offset is 0 while an undo file is re-opened (the offset option reaches the channel after open)",
    "NO_INLINE_FUNCS: ext2fs_fstat, ext2fs_free_mem, bitmap functions are unit stubs"],
@@ -39,19 +40,8 @@
 */
 /* VERIF-UNIT
 {
- "name": "undo_reopen_keys_1k_4k", "defines": ["NO_INLINE_FUNCS", "CFG_BS=1024", "CFG_TDB=4096"],
- "props": ["C12"], "level": "U", "tier": "wip", "harness": "h_reopen_keys",
- "replace": ["check_filesystem", "undo_setup_tdb"], "loop_contracts": true,
- "unwind": 24, "unwind_reason": "only DFCC library loops over the assigns-clause targets (<= 12) are unwound; both loops of try_reopen_undo_file are closed by in-place loop contracts",
- "functions": ["lib/ext2fs/undo_io.c:try_reopen_undo_file"],
- "assumes": ["as undo_reopen_keys with block_size 4096, fs_block_size 1024 (undo block larger than the filesystem block)"],
- "backend": "cadical", "native": false, "timeout": 600
-}
-*/
-/* VERIF-UNIT
-{
  "name": "undo_reopen_header", "defines": ["NO_INLINE_FUNCS", "HEADER_ONLY=1"],
- "props": ["C12", "C06"], "level": "U", "tier": "wip", "harness": "h_reopen_header",
+ "props": ["C12", "C06"], "level": "U", "tier": "quick", "harness": "h_reopen_header",
  "replace": ["check_filesystem", "undo_setup_tdb"], "loop_contracts": true,
  "unwind": 24, "unwind_reason": "loop-free prefix: check_filesystem refuses, so the key loops are never entered; only DFCC library loops are unwound",
  "functions": ["lib/ext2fs/undo_io.c:try_reopen_undo_file"],
